@@ -33,7 +33,14 @@ void _ZSt20__throw_system_errori(cv_i32 e) { __CPROVER_assert(0, "std::system_er
 #define LINV9       (!(IQ_LEN > 0 && WQ_LEN > 0))
 #define LINV10(q)   (BQ_LEN > 0 ==> IQ_LEN >= (q)->_limit)
 #define LQ_WF(q)    (IQ_INV && WQ_INV && BQ_INV && LINV9 && LINV10(q))
-#define LQ_PRE(q)   (cv_exc_pending == 0 && __CPROVER_is_fresh(q, sizeof(*(q))) && LOCK_IDLE && gh_q_mx == LQ_MX(q) && gh_q_lock_required == 1 && \
+/* CV_BOUNDED_FALLBACK: the same contracts by unwinding (no loop contracts), for small states - decides a rewritten member that contains a
+ * NEW loop (for which no invariant exists) instead of leaving it undecided; labelled bounded */
+#ifdef CV_BOUNDED_FALLBACK
+#define LQ_BOUND(q) (bq_tail - bq_head <= 4 && iq_tail - iq_head <= 5 && wq_tail - wq_head <= 4 && (q)->_limit <= 4)
+#else
+#define LQ_BOUND(q) 1
+#endif
+#define LQ_PRE(q)   (cv_exc_pending == 0 && __CPROVER_is_fresh(q, sizeof(*(q))) && LQ_BOUND(q) && LOCK_IDLE && gh_q_mx == LQ_MX(q) && gh_q_lock_required == 1 && \
                      PR_LOG_CLEAN && WQ_CLEAN && BQ_CLEAN && LQ_WF(q))
 #define LQ_POST(q)  (cv_exc_pending == 0 && LQ_WF(q) && PR_HYGIENE && (q)->_limit == OLD((q)->_limit))
 #define LQ_Q_SAME   (iq_head == OLD(iq_head) && iq_tail == OLD(iq_tail) && iq_trk == OLD(iq_trk))
